@@ -230,6 +230,13 @@ pub struct AdmObs {
     pub suback: bool,
     pub in_connection_map: bool,
     pub witness_got_probe: bool,
+    /// what changed in the router's own view of its sessions (connection map, saved sessions, wills, subscriptions)
+    /// between the first byte and the end of this connection's task; empty = nothing
+    pub router_state_change: String,
+    /// a live connection with the same client id existed before the attempt ...
+    pub victim: bool,
+    /// ... and still answered a PINGREQ afterwards
+    pub victim_alive: bool,
     pub task: String,
     pub task_panic_site: Option<String>,
 }
@@ -247,6 +254,19 @@ async fn run_adm(cx: &mut AdmCtx<'_>, c: &AdmCase, bytes: &[u8], expect_admissio
         ..Default::default()
     };
     let v = if c.v5 { 5 } else { 4 };
+    // every second case with a usable client id: somebody is already connected under that id
+    let mut victim = if c.n % 2 == 0 && !c.client_id.is_empty() && !c.client_id.contains(['+', '#', '$', '/']) {
+        obs.victim = true;
+        Some(helper_client(b, if c.n % 4 == 0 { Ver::V4 } else { Ver::V5 }, &c.client_id).await?)
+    } else {
+        None
+    };
+    // (cases run one after the other on this broker: whatever changes in the router meanwhile is ours)
+    let view = |s: &rumqttd::verif::RouterSnapshot| {
+        let v = serde_json::to_value(s).unwrap_or(Value::Null);
+        json!({"connection_map": v["connection_map"], "graveyard": v["graveyard"], "wills": v["wills"], "subscription_map": v["subscription_map"], "total_connections": v["total_connections"]})
+    };
+    let state_before = view(&b.barrier().await?);
     let mut x = b.open(listener_index(c.v5, c.auth));
     x.auto_ack = false;
     let probe_topic = format!("wit/{}", c.n);
@@ -316,7 +336,17 @@ async fn run_adm(cx: &mut AdmCtx<'_>, c: &AdmCase, bytes: &[u8], expect_admissio
         }
     };
     // did the probe publish reach the witness? (sentinel through the same log)
-    b.barrier().await?;
+    let state_after = view(&b.barrier().await?);
+    if state_after != state_before {
+        let keys = ["connection_map", "graveyard", "wills", "subscription_map", "total_connections"];
+        obs.router_state_change = keys.iter().filter(|k| state_before[**k] != state_after[**k]).map(|k| format!("{k}: {} -> {}", state_before[*k], state_after[*k])).collect::<Vec<_>>().join("; ");
+    }
+    if let Some(v) = victim.as_mut() {
+        obs.victim_alive = v.is_open() && v.ping().await.unwrap_or(false);
+        v.close();
+        v.join().await?;
+        b.barrier().await?;
+    }
     let s = format!("sentinel:{}", c.n).into_bytes();
     cx.publisher.publish(format!("wit/s{}", c.n).as_bytes(), &s, 0, false, vec![]).await?;
     let before = cx.witness.pubs.len();
@@ -345,23 +375,32 @@ fn check_adm(c: &AdmCase, obs: &AdmObs, stats: &mut Stats) -> Option<Record> {
         }
         Verdict::Inadmissible(why) => {
             stats.oracle("inadmissible-refused");
+            if obs.victim {
+                stats.corner("inadmissible-connect-under-a-live-client-id");
+            }
             stats.op(&format!("inadmissible:{why}"));
             if obs.connack_success {
                 return Some(adm_record(c, "inadmissible-accepted", why, format!("first packet is inadmissible ({why}) but got a successful CONNACK")));
             }
-            if obs.suback || obs.witness_got_probe || obs.in_connection_map {
+            if obs.suback || obs.witness_got_probe || obs.in_connection_map || !obs.router_state_change.is_empty() || (obs.victim && !obs.victim_alive) {
                 return Some(
                     adm_record(
                         c,
                         "inadmissible-effect",
                         why,
                         format!(
-                            "inadmissible first packet ({why}) reached the routing core: suback={} forwarded={} registered={}",
-                            obs.suback, obs.witness_got_probe, obs.in_connection_map
+                            "inadmissible first packet ({why}) reached the routing core: suback={} forwarded={} registered={} router state changed: [{}]{}",
+                            obs.suback,
+                            obs.witness_got_probe,
+                            obs.in_connection_map,
+                            obs.router_state_change,
+                            if obs.victim && !obs.victim_alive { "; the live connection under that client id was dropped" } else { "" }
                         ),
                     )
                     .fact("suback", obs.suback)
-                    .fact("forwarded", obs.witness_got_probe),
+                    .fact("forwarded", obs.witness_got_probe)
+                    .fact("router_state_changed", !obs.router_state_change.is_empty())
+                    .fact("live_connection_dropped", obs.victim && !obs.victim_alive),
                 );
             }
             None
